@@ -1,12 +1,14 @@
 #!/usr/bin/env python3
-import json, os, glob
+import json, os, glob, sys
+ROOT = os.path.dirname(os.path.dirname(os.path.abspath(__file__)))
 rep = {}
-for f in glob.glob('/verif/harness/*.go'):
+for f in glob.glob(ROOT + '/harness/*.go'):
     rep['/repo/internal/zzverif/' + os.path.basename(f)] = f
-for d in glob.glob('/verif/harness/shims/*'):
+for d in glob.glob(ROOT + '/harness/shims/*'):
     # shims/<path with __ for />/file.go  -> /repo/<path>/zz_verif_<file>.go
     pkg = os.path.basename(d).replace('__', '/')
     for f in glob.glob(d + '/*.go'):
         rep['/repo/' + pkg + '/zz_verif_' + os.path.basename(f)] = f
-os.makedirs('/verif/build', exist_ok=True)
-json.dump({'Replace': rep}, open('/verif/build/overlay.json', 'w'), indent=1)
+os.makedirs(ROOT + '/build', exist_ok=True)
+out = sys.argv[1] if len(sys.argv) > 1 else ROOT + '/build/overlay.json'
+json.dump({'Replace': rep}, open(out, 'w'), indent=1)
